@@ -896,6 +896,12 @@ func ConcatAll[T any]() func(Observable[Observable[T]]) Observable[T] {
 					subscriberCtx,
 					NewObserverWithContext(
 						func(ctx context.Context, source Observable[T]) {
+							if subscriptions.IsClosed() {
+								// a previous source failed (or the output was unsubscribed):
+								// the remaining sources must not be subscribed
+								return
+							}
+
 							sub := source.SubscribeWithContext(
 								ctx,
 								NewObserverWithContext(
